@@ -74,8 +74,8 @@ def ref_survivors(targets, chain, inputs):
     return cur
 
 
-async def run_one(targets, chain_name, in_name, blocked):
-    connectors = {d: FakeConnector(d, locations={"l0": {"slots": 1}}) for d in ("dA", "dB", "dC")}
+async def run_one(targets, chain_name, in_name, blocked, gated=False):
+    connectors = {d: FakeConnector(d, locations={"l0": {"slots": 1}}, gated=gated) for d in ("dA", "dB", "dC")}
     ctx = SimpleNamespace(deployment_manager=FakeDeploymentManager(connectors), data_manager=FakeDataManager())
     sched = DefaultScheduler(ctx, retry_delay=0)
     dcfg = {d: DeploymentConfig(name=d, type="fake", config={}, lazy=False) for d in connectors}
@@ -94,11 +94,18 @@ async def run_one(targets, chain_name, in_name, blocked):
                  "job": [{"port": p, "match": m} for p, m in preds.items()]} for rd, rs, preds in rules]}))
     inputs = {k: Token(v) for k, v in INPUTS[in_name].items()}
     job = Job(name="/step/0", workflow_id=1, inputs=inputs, input_directory="/i", output_directory="/o", tmp_directory="/t")
+    loop = asyncio.get_running_loop()
+    if gated:
+        loop.mute = False
     task = asyncio.ensure_future(sched.schedule(job, BindingConfig(targets=tobjs, filters=filters), None))
-    for _ in range(60):
-        await asyncio.sleep(0)
-        if task.done():
-            break
+    if gated:
+        # controlled loop: the connectors' replies are gates; the loop itself runs to quiescence after main returns
+        return lambda: _outcome(task, sched, job, tobjs)
+    else:
+        for _ in range(60):
+            await asyncio.sleep(0)
+            if task.done():
+                break
     if not task.done():
         task.cancel()
         try:
@@ -106,11 +113,65 @@ async def run_one(targets, chain_name, in_name, blocked):
         except BaseException:
             pass
         return ("pending", None)
+    return _outcome(task, sched, job, tobjs)
+
+
+def _outcome(task, sched, job, tobjs):
+    if not task.done():
+        return ("pending", None)
     if task.exception() is not None:
         return ("raised", type(task.exception()).__name__)
     alloc = sched.get_allocation(job.name)
     idx = next(i for i, t in enumerate(tobjs) if t is alloc.target)
     return ("placed", idx)
+
+
+# ---- E1 part: the time each connector takes to list its locations is owned by the controller -------------------
+def expected(targets, chain_name, in_name, blocked):
+    surv = ref_survivors(targets, FILTERS[chain_name], INPUTS[in_name])
+    if surv is None:
+        return surv, ("raised", "WorkflowExecutionException")
+    host = [t for t in surv if t[0] not in blocked]
+    return surv, (("placed", targets.index(host[0])) if host else ("pending", None))
+
+
+def run_case(params, prefix):
+    from mc.explore import Outcome
+    from mc.loop import execute
+
+    targets = [tuple(t) for t in params["targets"]]
+    blocked = set(params["blocked"])
+    res = {}
+
+    async def main(loop):
+        loop.mute = True
+        res["got"] = await run_one(targets, params["chain"], params["inputs"], blocked, gated=True)
+
+    ex = execute(main, prefix)
+    surv, want = expected(targets, params["chain"], params["inputs"], blocked)
+    fails = []
+    base = f"C13|latency|chain={params['chain']}"
+    if callable(res.get("got")):
+        res["got"] = res["got"]()
+    if ex.error:
+        fails.append((base + "|hang-or-error", f"{ex.error} {ex.pending[:4]} for {params}"))
+    elif res["got"] != want:
+        fails.append((base + "|wrong-target", f"targets (declared order) {targets}, filters {params['chain']}, inputs "
+                      f"{INPUTS[params['inputs']]}, busy {sorted(blocked)}: got {res['got']}, expected {want} (survivors {surv}) "
+                      f"when the connectors answer get_available_locations in a non-default order"))
+    return Outcome(ex.trace, fails, obs=str(res.get("got")), steps=ex.steps, states=ex.states, signature=ex.signature)
+
+
+def latency_cases(tier):
+    pool = POOL[:3]
+    out = []
+    for k in (2, 3):
+        for targets in itertools.permutations(pool, k):
+            for chain in (("none", "m_x", "chain_pass_m") if tier == "quick" else tuple(FILTERS)):
+                for inp in (("xa",) if tier == "quick" else tuple(INPUTS)):
+                    for b in ([], ["dA"]) if tier == "quick" else ([], ["dA"], ["dB"], ["dA", "dB"]):
+                        out.append({"targets": [list(t) for t in targets], "chain": chain, "inputs": inp, "blocked": b})
+    return out
 
 
 def check_chunk(chunk):
@@ -153,6 +214,11 @@ def main(argv=None):
         import json
 
         p = json.load(open(args.replay))["replay"]
+        if "case" in p:
+            out = run_case(p["case"], runner.unrle(p["choices"]))
+            for k, m in out.failures:
+                print(f"VIOLATION property={PROP} replay={args.replay}\n  {k}: {m}")
+            return 1 if out.failures else 0
         r = check_chunk({"items": [(p["targets"], p["chain"], p["inputs"], set(p["blocked"]))]})
         for k, m, _ in r.failures:
             print(f"VIOLATION property={PROP} replay={args.replay}\n  {k}: {m}")
@@ -174,12 +240,28 @@ def main(argv=None):
     chunks = [{"items": items[i:i + size]} for i in range(0, len(items), size)]
     enumr.run_enum(rep, f"checks.{PROP}", chunks, workers=args.workers)
     rep.coverage["configurations"] = len(items)
+    # E1 part: connector reply times explored (deviation-bounded) on a controlled loop
+    from mc.explore import Explorer
+
+    lcases = latency_cases(args.tier)
+    lb = 2 if quick else 3
+    with Explorer(f"checks.{PROP}", lcases, workers=args.workers, seed=runner.seed()) as exp:
+        stats, completed, levels = exp.run(lb, time_cap=120 if quick else 900)
+    e3 = dict(rep.coverage)
+    runner.e1_report(rep, sys.modules[__name__], lcases, stats, completed, levels, lb, samples=e3.get("samples"))
+    rep.coverage["latency_cases"] = len(lcases)
+    rep.coverage["latency_executions"] = stats.executions
+    rep.coverage["evaluations"] = e3["evaluations"] + stats.executions
+    rep.coverage["distinct_nontrivial"] = e3["distinct_nontrivial"] + len(stats.signatures)
+    rep.coverage["exhaustive"] = bool(e3["exhaustive"] and completed >= lb)
     rep.coverage["rule"] = (
         "every declared ORDER (all permutations) of 1..4 targets from a pool of (deployment, service) pairs x 9 filter "
         "chains (none, pass-through, matching filters with 1..3 rules, 0..2 predicates, service rules, OR rules, "
         "chains of two) x 3 job input valuations x busy-deployment subsets, scheduled on the real DefaultScheduler "
-        "(FIFO event loop); oracle: allocation target == first surviving target in declared order that can host; "
-        "distinct = distinct (chain, inputs, #targets, expected outcome)")
+        "(FIFO event loop); PLUS, for 2..3 targets, a controlled loop on which every connector's get_available_locations "
+        "reply is a gate: all reply orders within the deviation bound; oracle: allocation target == first surviving "
+        "target in declared order that can host; distinct = distinct (chain, inputs, #targets, expected outcome) + "
+        "distinct event orders")
     rep.assumptions = ["asyncio starts tasks and grants Condition locks in FIFO order (documented behaviour)",
                        "one slot location per deployment; hosting capacity controlled by blocker jobs"]
     return rep.finish()
